@@ -356,7 +356,7 @@ def compat_checks_rule(ctx, rule):
     raises = [s for s in iter_child_stmts(f.body) if isinstance(s, ast.Raise)]
     writers = [_stmt_of(f, c) for c in _calls(f, 'write_simple') + _calls(f, 'write_multi')]
     ctx.floor(rule, 'writer calls in write_row_groups', len(writers), 2)
-    col_raise = [r for r in raises if 'olumn' in src(r)]
+    col_raise = [r for r in raises if 'olumn names' in src(r)]
     ok = len(col_raise) == 1
     ctx.ob(rule, 'api.write_row_groups:column-mismatch-is-refused', ok, 'a raise mentioning the column names', api.loc(f))
     if ok:
@@ -438,7 +438,12 @@ def single_pass_data_rule(ctx, rule):
     api, wr = ctx.repo['api'], ctx.repo['writer']
     f = api.func('ParquetFile.write_row_groups')
     its = []
+    # (under `isinstance(data, pd.DataFrame)` the argument is a frame: looking at its columns consumes nothing)
+    frame_arms = [x for x in ast.walk(f) if isinstance(x, ast.If) and norm(x.test) == 'isinstance(data, pd.DataFrame)']
+    in_frame_arm = {id(y) for x in frame_arms for b_ in x.body for y in ast.walk(b_)}
     for n in ast.walk(f):
+        if id(n) in in_frame_arm:
+            continue
         if isinstance(n, (ast.For, ast.comprehension)) and 'data' in {x.id for x in ast.walk(n.iter) if isinstance(x, ast.Name)} \
                 and not norm(n.iter).startswith('data.columns') and 'sorted(data.columns)' not in norm(n.iter):
             its.append(norm(n.iter))
@@ -578,3 +583,41 @@ def _blocks_of(stmts):
                 yield from _blocks_of(sub)
         for h in getattr(st, 'handlers', []) or []:
             yield from _blocks_of(h.body)
+
+
+def kind_checks_rule(ctx, rule):
+    """write_row_groups (the common entry of every append), before any writer is called: (a) a column the dataset declares
+    categorical gets categorical data - a chunk without a dictionary page cannot be read back as that column; (b) the
+    values of a partition column parse as the partition's recorded type - directory names are read back under that
+    type, and one name that does not parse makes the whole dataset fall back to another layout"""
+    api = ctx.repo['api']
+    f = api.func('ParquetFile.write_row_groups')
+    cfg = CFG(f)
+    writers = [_stmt_of(f, c) for c in _calls(f, 'write_simple') + _calls(f, 'write_multi')]
+    raises = [r for r in walk_no_nested(f) if isinstance(r, ast.Raise)]
+
+    def before_writers(r):
+        st = r
+        return all(not cfg.exists_path(cfg.node_of(w), cfg.node_of(st)) and cfg.exists_path(cfg.node_of(st), cfg.node_of(w)) is not None for w in writers)
+    cat = []
+    for r in raises:
+        tests = [norm(e.test) for e, fld in cfg.enclosing_tests(r) if isinstance(e, ast.If)]
+        loops = [norm(e.iter) for e, fld in cfg.enclosing_tests(r) if isinstance(e, ast.For)]
+        if any('CategoricalDtype' in t and t.strip().find('not isinstance') >= 0 for t in tests) and any('self.categories' in l for l in loops):
+            cat.append(r)
+    ctx.ob(rule, 'api.write_row_groups:non-categorical-data-for-a-categorical-column-refused-before-writing',
+           len(cat) == 1 and all(not cfg.exists_path(cfg.node_of(w), cfg.node_of(cat[0])) for w in writers),
+           'appending plain values to a dictionary-declared column leaves a chunk the reader cannot load as categorical', api.loc(f))
+    part = []
+    for r in raises:
+        hs = [h for t in ast.walk(f) if isinstance(t, ast.Try) for h in t.handlers if any(r is y for y in ast.walk(h))]
+        if not hs:
+            continue
+        trys = [t for t in ast.walk(f) if isinstance(t, ast.Try) and any(h in t.handlers for h in hs)]
+        if any(isinstance(c, ast.Call) and callee(c) == 'val_to_num' and any(k.arg == 'meta' for k in c.keywords) and
+               any(isinstance(a, ast.Call) and callee(a) == 'path_string' for a in c.args) for t in trys for c in ast.walk(ast.Module(body=t.body, type_ignores=[]))):
+            part.append(r)
+    ctx.ob(rule, 'api.write_row_groups:partition-values-parse-as-the-recorded-type-or-the-append-is-refused',
+           len(part) == 1 and all(not cfg.exists_path(cfg.node_of(w), cfg.node_of(part[0])) for w in writers),
+           'a directory name that does not parse under the partition\'s recorded type makes the dataset fall back to drill '
+           'parsing on the next open (the partition column disappears)', api.loc(f))
